@@ -579,7 +579,8 @@ func checkPackString(c *Check, p *Program, f *ssa.Function) {
 					}
 				}
 				bound := anyFact(factsAt(st.Block()), func(fc Cmp) bool {
-					return fc.Op == token.LSS && fc.X == ssa.Value(ph) && stripAllConv(fc.Y) == ssa.Value(maxLen)
+					isMax := func(v ssa.Value) bool { return stripAllConv(v) == ssa.Value(maxLen) }
+					return (fc.Op == token.LSS && fc.X == ssa.Value(ph) && isMax(fc.Y)) || (fc.Op == token.GTR && fc.Y == ssa.Value(ph) && isMax(fc.X))
 				})
 				if start && step && bound {
 					okFill = true
